@@ -923,6 +923,7 @@ def check(facts, rep, tier, cfg):
     rep.rule("C18.S7", "no new process-wide mutable state (static cell / lock / once-cell) in the files this property is anchored in")
     import whomay
     whomay.check_new_statics(facts, rep, "C18.S7", "C18")
+    whomay.check_new_trait_methods(facts, rep, "C18.S7", "C18")
 
 
 def check_r6_callsite_codes(facts, rep):
